@@ -230,7 +230,7 @@ struct SqliteSubject {
 impl Subject for SqliteSubject {
     type Conn = deadpool_sqlite::Object;
     fn kinds(&self) -> &'static [Spoil] {
-        &[Spoil::Poison, Spoil::Cancelled, Spoil::LatePoison]
+        &[Spoil::Poison, Spoil::Invalid, Spoil::Cancelled, Spoil::LatePoison]
     }
     fn status(&self) -> deadpool::Status {
         self.pool.status()
@@ -268,6 +268,23 @@ impl Subject for SqliteSubject {
         match how {
             Spoil::Poison => {
                 let _ = c.interact(|_| std::panic::panic_any("scripted panic")).await;
+            }
+            Spoil::Invalid => {
+                // a statement left running plus an interrupt: SQLite keeps the interrupt flag up
+                // while a statement is running, so every later statement - the manager's validity
+                // query included - fails with SQLITE_INTERRUPT; no panic, the mutex is not poisoned
+                let _ = c
+                    .interact(|conn| {
+                        if let Ok(mut stmt) = conn.prepare("SELECT 1 UNION ALL SELECT 2") {
+                            if let Ok(mut rows) = stmt.query([]) {
+                                let _ = rows.next();
+                                std::mem::forget(rows);
+                            }
+                            std::mem::forget(stmt);
+                        }
+                        conn.get_interrupt_handle().interrupt();
+                    })
+                    .await;
             }
             Spoil::Cancelled => {
                 start_and_cancel(c.interact(|_| std::thread::sleep(Duration::from_micros(300))));
@@ -365,11 +382,22 @@ impl Subject for DieselSubject {
                 let _ = c.interact(|_| std::panic::panic_any("scripted panic")).await;
             }
             Spoil::Broken => {
-                // an open transaction left behind by the user
+                // diesel calls a connection broken in two ways: a transaction left open by the
+                // user, or a transaction manager in the `InError` state (a top-level ROLLBACK that
+                // failed: here the closure rolls back by hand and then returns an error)
+                let in_error = serial % 2 == 1;
                 let _ = c
-                    .interact(|conn| {
-                        use diesel::connection::{AnsiTransactionManager, TransactionManager};
-                        AnsiTransactionManager::begin_transaction(conn)
+                    .interact(move |conn| {
+                        use diesel::connection::{AnsiTransactionManager, Connection, SimpleConnection, TransactionManager};
+                        if in_error {
+                            let _ = conn.transaction::<(), diesel::result::Error, _>(|c| {
+                                c.batch_execute("ROLLBACK")?;
+                                Err(diesel::result::Error::RollbackTransaction)
+                            });
+                            Ok(())
+                        } else {
+                            AnsiTransactionManager::begin_transaction(conn)
+                        }
                     })
                     .await;
             }
